@@ -28,6 +28,18 @@ def _spec(module):
             'units': {'cJSON.c': 'core_min.c', 'cJSON_Utils.c': 'utils_bad.c'},
             'rules': [tab.tab8, tab.tab9, tab.tab10, tab.tab11, tab.tab12, lst.lst1, out.out5, out.out6, out.out7],
         }]
+    if module == 'parse':
+        from . import bnd, bnd3, parse, tab
+        names3 = ['bad_BND3_skip_two', 'good_skip_two', 'bad_BND3_lookahead', 'good_lookahead', 'bad_BND3_loop_steps_over',
+                  'good_loop', 'h_skip', 'bad_BND3_call', 'good_call', 'bad_BND3_index', 'good_index']
+        return [{
+            'units': {'cJSON.c': 'parse_bad.c', 'cJSON_Utils.c': 'utils_min.c'},
+            'rules': [bnd.bnd_parse, parse.c10_structure, parse.bnd6, tab.tab13,
+                      lambda units, R: parse.tab1(units, R, claim=('pv_bad', 'pv_good', 'pv_skip'))],
+        }, {
+            'units': {'cJSON.c': 'string_bad.c', 'cJSON_Utils.c': 'utils_min.c'},
+            'rules': [lambda units, R: bnd3._run(units['cJSON.c'], names3, R, 0)],
+        }]
     raise AnalysisBroken('no fixture spec for module %s' % module)
 
 
@@ -47,7 +59,7 @@ def run_module(module):
             try:
                 rule(units, R)
             except AnalysisBroken as e:
-                out.append(('%s:%s' % (module, rule.__name__), False, 'raised AnalysisBroken: %s' % e))
+                out.append(('%s:%s' % (module, getattr(rule, '__name__', 'rule')), False, 'raised AnalysisBroken: %s' % e))
         failing = {}
         for o in R.obs:
             if not o.ok:
